@@ -48,6 +48,13 @@ def gen(seed):
         opt['t'] = pats(rng, T_FRAGS)
     if rng.random() < 0.2:
         opt['m'] = pats(rng, ['test_m0', 'test_m1', 'tests', 'nomatch', 'm[01]$'])
+    if rng.random() < 0.15:
+        # the deprecated positional filters, with or without a '--' in front
+        opt['positional'] = [rng.choice(['.', 'test_m0', 'tests', 'm[01]$', '!test_m1'])]
+        if rng.random() < 0.6:
+            opt['positional'].append(rng.choice(['test_a', 'TC0', '!test_b', '.']))
+        if rng.random() < 0.5:
+            opt['dashdash'] = True
     if rng.random() < 0.35:
         # (also the world's own layer names - which may be prefixes of each other - whole,
         # anchored and cut short)
